@@ -16,8 +16,8 @@ implementation keeps between calls, exactly as the code keeps it:
 * (e) `MProcess.calc_proj_eq_constraint_with_var` (mprocess.py:440-466, 1009-1089) with the aliasing
   between its argument and the reshaped views it writes to.
 
-The model mirrors the code *as it is* (after the `fix:` commits for D5 and D9; the order dependence of the algorithm
-object, D10, and of the `identity` weighting mode, C13-F1, are still there).
+The model mirrors the code *as it is* (after the `fix:` commits for D5, D9 and the `identity` weighting mode; the order dependence of the algorithm
+object, D10, is still there, and a weighting mode without a branch in `_set_weights_by_mode` leaves the weights alone).
 -/
 namespace QM.C13
 
@@ -149,10 +149,10 @@ def lstep {A Q W : Type} (s : Loss A Q W) : LOp A Q W → Loss A Q W
   | .setFuncGrad a => calcExt { s with matA := some a }
   | .setWeightsByMode m dw =>
       match m with
-      | .identity => s                                   -- `pass`: the weights of an earlier call stay (C13-F1)
+      | .identity => setWeights s none                   -- set_weight_matrices(None)
       | .custom => setWeights s (s.option.bind (·.2))    -- set_weight_matrices(self.option.weights)
       | .invCov => setWeights s (some dw)
-      | .ignored => s                                    -- no branch
+      | .ignored => s                                    -- no branch: the weights of an earlier call stay
 
 /-- the setter calls of `set_from_standard_qtomography_option_data`, in the order the code issues them -/
 def cfgOps {A Q W : Type} (c : Cfg A Q W) : List (LOp A Q W) :=
